@@ -2,6 +2,7 @@
 mod common;
 mod pdb;
 mod record;
+mod dump;
 mod workers;
 mod small;
 mod probe;
